@@ -173,7 +173,7 @@ def h_hist(params):
         used = used | {"field"}
     if scen == "drop":
         used = used | {"meas"}
-    cfg = {"storage": params.get("storage", "mem"), "auto_index": params.get("ai", True), "csv_times": params.get("csv_times", 3)}
+    cfg = {"storage": params.get("storage", "mem"), "auto_index": params.get("ai", True), "csv_times": params.get("csv_times", 3), "floats": params.get("floats", False)}
     alpha = params.get("alpha", "full")
 
     def body(h):
@@ -251,6 +251,10 @@ def obligations(tier):
             torder = "sym" if "time" in attrs(q) else None
             for to in [torder] if torder else ["inc", "ooo"]:
                 obs.append(_ob(f"leaf/{q_repr(q)}/{cname}/{to}", q, "ins", ai, rx, torder=to))
+    # float-typed field values (quarters k/4) next to ints, on both sides of the comparison
+    for q in L_FIELD + [("not", C), ("and", B, C), ("or", ("not", D), C)]:
+        for cname, ai, rx in CONFIGS:
+            obs.append(_ob(f"floats/{q_repr(q)}/{cname}", q, "ins", ai, rx, torder="ooo", floats=True, n=2 if not thorough else 3, alpha="sel", split_op=True))
     for q in COMPOUNDS:
         for cname, ai, rx in CONFIGS:
             to = "sym" if "time" in attrs(q) else "ooo"
